@@ -11,6 +11,7 @@ Viols(e) ==
     (IF e.obs.from \notin {UNAUTH, "none"} /\ ~(c.kind \in NodeKinds /\ e.obs.auth) THEN {"unauthenticated-connection-from-authenticated-sublistener"} ELSE {}) \cup
     (IF e.obs.deliveries > 1 THEN {"connection-delivered-more-than-once"} ELSE {}) \cup
     (IF ~AllowedC17(cf, c, e.obs.from, e.obs.native, e.obs.auth) THEN {"routing-or-connection-type"} ELSE {})
+  ELSE IF e.op.op = "Lookup" THEN (IF e.res # "same" THEN {"second-lookup-did-not-return-the-registered-sublistener"} ELSE {})
   ELSE IF e.op.op = "CloseBase" THEN (IF ~e.obs.allClosed THEN {"sublistener-not-closed-after-base-closed"} ELSE {})
   ELSE {}
 Init == l = 1 /\ cnt = [lines |-> 0, nontrivial |-> 0, drift |-> 0, viol |-> 0, unc |-> 0]
